@@ -1049,6 +1049,14 @@ EXTRACTORS["C14"] = EXTRACTORS.get("C14", []) + [GEN_SRC[n] for n in ("SrcHmmVit
 TRANSLATOR_MODULES.append("rs2lean_genavl")
 GEN_SRC.update({n: gen_src(n) for n in ("SrcAvl",)})
 EXTRACTORS["C07"] = EXTRACTORS["C07"] + [GEN_SRC["SrcAvl"]]
+# genpoa: partial-order alignment (C16) — dialect "poa" of tools/rs2lean_genpoa.py; Thm/C16.lean imports RbV.Thm.GenSrcPoa*
+TRANSLATOR_MODULES.append("rs2lean_genpoa")
+GEN_SRC.update({n: gen_src(n) for n in ("SrcPoaAlign", "SrcPoaAdd", "SrcPoaConsensus")})
+EXTRACTORS["C16"] = EXTRACTORS.get("C16", []) + [GEN_SRC[n] for n in ("SrcPoaAlign", "SrcPoaAdd", "SrcPoaConsensus")]
+SOFT_POA_CUSTOM = soft_modules(["RbV.Thm.GenSrcPoaCustom"], "the DP phase of the translated `Poa::custom` is no longer equal to the "
+                               "checked-i32 mirror `cStepC` cell by cell, tie-breaks included (exact equality: soft; decided by the "
+                               "behavioural tie)")
+EXTRACTORS["C16"] = EXTRACTORS["C16"] + [SOFT_POA_CUSTOM]
 
 # genlong: the rest of the Myers matchers (C09/C10) — tools/rs2lean_genlong.py (on top of rs2lean_pm.py): `States::new`, `known_dist`,
 # the glue of long.rs, `Matches::new/next` + `distance` at the long.rs instance of `impl_myers!`; Thm/C09.lean restates the theorems
